@@ -77,6 +77,11 @@ def run(chk, ctx):
             if any("contains" in f for fs, sh in pt for f, t in fs):
                 want = {(frozenset([("[T]::contains(Vec::new(), elem([T]::iter(read_outputs)))", False)]), "Some(?)"), (frozenset([("[T]::contains(Vec::new(), elem([T]::iter(read_outputs)))", True)]), "None")}
                 chk.require(pt == want, "TAB", "TAB:build_output_indices:missing-filter", "missing = read_outputs not contained in found_outputs", "missing filter is %s" % sorted(pt, key=str))
+    # which identifiers count as output reads (parse-time scoping) and how they are resolved at load time:
+    # the missing-output check above is only as good as the read set it is given (shared with C11)
+    from . import c11
+    c11.scoping_rules(chk, P)
+    c11.condition_rules(chk, P)
     # Expr::Variable: Value(n) -> Ok(n), anything else -> Err
     ev = P.body("expr::Expr::eval")
     if chk.anchor("Expr::eval", ev):
